@@ -18,7 +18,9 @@ Checks per case (oracles from the property statement, computed from devdb.json /
       aliases HardwareView offers) is prefix-closed and `hw.match()` agrees;
   (b) the vendor chosen is the registered one with the most specific true match expression (depth of the devdb
       sequence the expression denotes), the maximum is unique, and fresh `Registry` objects holding the same vendor
-      classes in rotated / reversed / rotated-reversed order choose the same vendor;
+      classes in rotated / reversed / rotated-reversed order choose the same vendor; the same holds when match() is asked
+      DURING registration (after every register() step, for every model: the most specific vendor registered so far, whatever
+      was asked before) and after Registry.__add__ of two registries of which one had already been queried;
   (c) `get_rulebook(hw)` succeeds; the files rendered are <vendor>.rul/.order/.deploy; every `%logic=`, `%diff_logic=`,
       `%apply_logic=` named in the rendered texts is importable under annet.rulebook and the compiled rule holds it; every
       regexp object in the compiled rulebooks is a compiled pattern; the number of compiled rules is the number of rule
@@ -537,6 +539,140 @@ def _dup_lines(text):
     return dup
 
 
+def ref_vendor(st, model, registered):
+    """reference for Registry.match(model, None) when only the vendors `registered` (names) are registered:
+    the one whose true match expression denotes the deepest devdb sequence; None if nothing matches; "<tie>" if not unique"""
+    db, aliases, reg = st["db"], st["aliases"], st["reg"]
+    full_true = ref_true_full(db, model)
+    cands = []
+    for name in registered:
+        for expr in reg[name].match():
+            full = aliases.get(tuple(expr.split(".")))
+            if full is not None and full in full_true:
+                cands.append((len(full), name))
+    if not cands:
+        return None
+    top = max(c[0] for c in cands)
+    best = sorted({c[1] for c in cands if c[0] == top})
+    return best[0] if len(best) == 1 else "<tie>"
+
+
+def _interleave_models(st):
+    out = []
+    for c in st["cases"]:
+        if c["soft"] == "" and c["model"] not in out:
+            out.append(c["model"])
+    for m in ("Cisco Nexus 3548", "Cisco ASR 9001", "Huawei OptiXtrans DC908"):
+        if m not in out:
+            out.append(m)
+    return out
+
+
+def run_interleaved(st, order_names, models, upto=None):
+    """register the vendor classes one by one on a fresh Registry and ask match(model) for every model after every step
+    -> list of (step, registered names, model, expected, actual)"""
+    from annet.vendors.registry import Registry
+    cls = {type(st["reg"][n]).NAME: type(st["reg"][n]) for n in st["reg"]}
+    r = Registry()
+    bad = []
+    done = []
+    for step, name in enumerate(order_names):
+        r.register(cls[name])
+        done.append(name)
+        if upto is not None and step > upto:
+            break
+        for m in models:
+            exp = ref_vendor(st, m, done)
+            if exp == "<tie>":
+                continue
+            try:
+                v = r.match(m, None)
+                got = v.NAME if v is not None else None
+            except Exception as e:
+                got = "%s: %s" % (type(e).__name__, e)
+            if got != exp:
+                bad.append((step, list(done), m, exp, got))
+    return bad
+
+
+def run_add(st, left_names, right_names, models, query_first):
+    """two registries with disjoint vendors; `query_first` of them ("left"/"right"/"both"/"none") is asked for every model
+    before left.__add__(right); afterwards left must answer like a registry holding all the vendors"""
+    from annet.vendors.registry import Registry
+    cls = {type(st["reg"][n]).NAME: type(st["reg"][n]) for n in st["reg"]}
+    left, right = Registry(), Registry()
+    for n in left_names:
+        left.register(cls[n])
+    for n in right_names:
+        right.register(cls[n])
+    for (which, r) in (("left", left), ("right", right)):
+        if query_first in (which, "both"):
+            for m in models:
+                r.match(m, None)
+    left + right      # Registry.__add__ works in place
+    bad = []
+    allnames = list(left_names) + list(right_names)
+    if sorted(left.vendors) != sorted(allnames):
+        bad.append((None, "<vendors after __add__>", sorted(allnames), sorted(left.vendors)))
+    for m in models:
+        exp = ref_vendor(st, m, allnames)
+        if exp == "<tie>":
+            continue
+        try:
+            v = left.match(m, None)
+            got = v.NAME if v is not None else None
+        except Exception as e:
+            got = "%s: %s" % (type(e).__name__, e)
+        if got != exp:
+            bad.append((None, m, exp, got))
+    return bad
+
+
+def check_registration_history(ctx, st, part, nparts):
+    """queries DURING registration: the vendor chosen must be the most specific one registered so far, whatever was asked before"""
+    names = [type(st["reg"][n]).NAME for n in st["reg"]]
+    models = _interleave_models(st)
+    orders = registry_orders(names)
+    for oi, order in enumerate(orders):
+        if oi % nparts != part:
+            continue
+        ctx.ev += 1
+        ctx.nontrivial.add(hashlib.md5(repr(("interleave", order)).encode()).hexdigest()[:12])
+        try:
+            bad = run_interleaved(st, order, models)
+        except Exception as e:
+            ctx.fail("exception:registration-history", "exception while registering/matching step by step", dict(kind="interleave", order=order),
+                     "no exception", "%s: %s" % (type(e).__name__, e))
+            continue
+        for (step, done, m, exp, got) in bad[:2]:
+            ctx.fail("registry-match-stale-after-register",
+                     "Registry.match asked during registration: after registering a further vendor the answer is not the most specific "
+                     "vendor registered so far (it depends on what was asked before)",
+                     dict(kind="interleave", order=order, step=step, registered=done, model=m), exp, got)
+    # __add__ of two registries, one of them (or both) already queried
+    specific = [n for n in names if any("." in e for e in st["reg"][n].match())]
+    generic = [n for n in names if n not in specific]
+    splits = [(generic, specific), (specific, generic), (names[::2], names[1::2]), (names[1::2], names[::2])]
+    k = 0
+    for (left, right) in splits:
+        for q in ("none", "left", "right", "both"):
+            k += 1
+            if (k - 1) % nparts != part or not left or not right:
+                continue
+            ctx.ev += 1
+            ctx.nontrivial.add(hashlib.md5(repr(("add", left, right, q)).encode()).hexdigest()[:12])
+            case = dict(kind="add", left=left, right=right, queried_before=q)
+            try:
+                bad = run_add(st, left, right, models, q)
+            except Exception as e:
+                ctx.fail("exception:registry-add", "exception in Registry.__add__ / match", case, "no exception", "%s: %s" % (type(e).__name__, e))
+                continue
+            for b in bad[:2]:
+                ctx.fail("registry-match-stale-after-add",
+                         "left.__add__(right) of two registries of which %s had been queried: left does not answer like a registry holding all "
+                         "the vendors" % q, dict(case, model=b[1]), b[2], b[3])
+
+
 def check_load_history(ctx, st, part, nparts):
     """one provider instance asked for several models of one vendor that render different texts, in both orders: every
     answer must be structurally equal to the one a fresh provider gives for that model alone"""
@@ -638,6 +774,12 @@ def run(tier="quick", seed=0, part=0, nparts=1):
         if part == 0 and len(samples) < 2 and case.get("seq") and case["seq"].count(".") >= 2:
             samples.append(dict(case, true=sorted(".".join(s) for s in ref_true_full(st["db"], case["model"]))))
     try:
+        check_registration_history(ctx, st, part, nparts)
+    except Exception as e:
+        import traceback
+        ctx.fail("exception:registration-history", "unexpected exception in the registration-history check", dict(part=part), "no exception",
+                 "%s: %s | %s" % (type(e).__name__, e, traceback.format_exc()[-500:]))
+    try:
         check_load_history(ctx, st, part, nparts)
     except Exception as e:
         import traceback
@@ -647,7 +789,9 @@ def run(tier="quick", seed=0, part=0, nparts=1):
     rule = ("exhaustive: %d devdb sequences -> %d distinct synthesised models (%d not synthesised), + %d canonical vendor hardware + the empty model, "
             "x %d software versions %r (templates test the version %d times) = %d cases; %d registration orders (all rotations of the "
             "shipped order and of its reverse); non-trivial = a case for which a registered vendor is chosen and its rulebook is loaded; "
-            "distinct by (model, soft). Load history: per vendor, one model per distinct set of rendered texts, every ordered pair through "
+            "distinct by (model, soft). Registration history: for each of the registration orders the vendors are registered one by one on a "
+            "fresh Registry and match() is asked for every model after every step (expected: most specific vendor registered so far); "
+            "Registry.__add__ of 4 disjoint splits x {none,left,right,both} queried before. Load history: per vendor, one model per distinct set of rendered texts, every ordered pair through "
             "one shared provider vs fresh providers. Same scope in both tiers."
             % (len(st["db"]), ndev, len(st["unsynth"]), len(list(st["reg"])), len(SOFTS), SOFTS, len(st["soft_uses"]), len(allc), len(st["regs"])))
     return dict(evaluations=ctx.ev, nontrivial=sorted(ctx.nontrivial), failures=ctx.failures, samples=samples, rule=rule,
@@ -657,6 +801,23 @@ def run(tier="quick", seed=0, part=0, nparts=1):
 
 def replay(case):
     ctx = Ctx()
+    st = _setup()
+    kind = case.get("kind")
+    if kind == "interleave":
+        bad = run_interleaved(st, case["order"], [case["model"]], upto=case.get("step"))
+        hit = [b for b in bad if b[0] == case.get("step")] or bad
+        exp = ref_vendor(st, case["model"], case.get("registered") or case["order"])
+        return dict(ok=not bad, expected=exp, actual=(hit[0][4] if hit else exp))
+    if kind == "add":
+        bad = run_add(st, case["left"], case["right"], [case["model"]] if "model" in case else _interleave_models(st), case["queried_before"])
+        return dict(ok=not bad, expected=(bad[0][2] if bad else "most specific vendor of left+right"), actual=(bad[0][3] if bad else "as expected"))
+    if "first" in case and "then" in case:
+        from annet.annlib.netdev.views.hardware import HardwareView
+        from annet.rulebook import DefaultRulebookProvider
+        shared = DefaultRulebookProvider()
+        shared.get_rulebook(HardwareView(case["first"], ""))
+        d = struct_diff(DefaultRulebookProvider().get_rulebook(HardwareView(case["then"], "")), shared.get_rulebook(HardwareView(case["then"], "")))
+        return dict(ok=d is None, expected="structurally equal to a fresh provider's rulebook", actual=d or "equal")
     if "model" not in case:
         return dict(ok=None, expected=None, actual="not a per-model case")
     check_case(ctx, dict(model=case["model"], soft=case.get("soft", ""), seq=case.get("seq"), origin=case.get("origin")))
